@@ -9,6 +9,7 @@ from ..proggen import ProgGen, type_of
 from ..rng import Streams
 
 from ..model import runaway
+from .. import canon
 
 ID = 'C07'
 LEVEL = 'exploration'
@@ -26,7 +27,7 @@ ASSUMPTIONS = ['differential check against sim/model.py, written from the proper
 REAL = ['smartquery.*', 'decimal', 'copy']
 STUB = ['host (names mapping owner, probes t/call/attempt)']
 REACH_PROBES = ('judged_value', 'judged_lang', 'judged_other', 'recursion', 'calluser', 'lambda', 'ops_counter_compared', 'ops_lower_bound_checked', 'second_names_mapping',
-                'hostcall', 'reentrant_host_call')
+                'hostcall', 'reentrant_host_call', 'host_calls_stored_lambda')
 
 
 def _world(r):
@@ -85,6 +86,25 @@ def generate(seed, tier):
             else:
                 ops.append({'op': 'scan', 'src': base, 'consume': S['faults'].randint(0, 3), 'space': si})
             continue
+        if arity and ro.random() < 0.08:
+            # between two evaluations the HOST calls a lambda a program left in this names mapping (no evaluation is in
+            # progress): the body runs against the mapping as it is now
+            f = ro.choice(sorted(arity))
+            args = [ro.choice([0, 1, 2, 7]) for _ in range(arity[f])]
+            ops.append({'op': 'hostcall', 'fn': f, 'args': args, 'space': si})
+            from ..model import MErr, Unspec
+            model.scopes = [model.builtins, cur]
+            try:
+                model.call_value(cur[f], list(args))
+            except MErr:
+                pass
+            except Unspec:
+                ops.pop()
+                break
+            except RecursionError:
+                ops.pop()
+                break
+            continue
         if ops and ro.random() < 0.15 and any(o['op'] == 'eval' for o in ops):
             prev = ro.choice([o for o in ops if o['op'] == 'eval'])       # the same source text again, in a possibly different names state
             ops.append(dict(prev, space=si))
@@ -120,6 +140,39 @@ def execute(case, ctx):
                 W.parser.eval(op['src'], dict(second[0] if op.get('space') and second else W.names))
             except Exception:
                 ctx.fault('bad_source')
+            continue
+        if op['op'] == 'hostcall':
+            from ..model import MErr, Unspec
+            from ..world import classify
+            rn_, mn_ = (second if op.get('space') and second else (W.names, W.model.host))
+            f, mf = rn_.get(op['fn']), mn_.get(op['fn'])
+            if not callable(f) or mf is None:
+                continue
+            try:
+                rv = ('value', canon.canon(f(*op['args']), monitors.M.fn_names))
+            except RecursionError:
+                break
+            except BaseException as e:
+                if type(e).__name__ in ('RunTimeout', 'RunTooBig', 'SimDeadlock'):
+                    raise
+                rv = (classify(e), type(e).__name__)
+            W.model.scopes = [W.model.builtins, mn_]
+            try:
+                mv = ('value', canon.canon(W.model.call_value(mf, list(op['args']))))
+            except MErr as e:
+                mv = (e.kind, str(e))
+            except (Unspec, RecursionError):
+                break
+            ctx.fault('call_outside_eval')
+            ctx.probe('host_calls_stored_lambda')
+            ctx.event(step, 'hostcall', rv[0], mv[0])
+            if rv[0] != mv[0] and not (mv[0] == 'other' and rv[0] in ('lang', 'other')) or (rv[0] == 'value' and rv != mv):
+                ctx.report('wrong_value' if rv[0] == mv[0] else 'unexpected_error', 'step %d: the host called the stored lambda %s%r outside any evaluation: model %s, system %s' % (
+                    step, op['fn'], tuple(op['args']), str(mv)[:200], str(rv)[:200]), {'kind': 'hostcall_mismatch'})
+            a = canon.canon(mn_)
+            b = canon.canon(rn_, monitors.M.fn_names)
+            if a != b:
+                ctx.report('names_mismatch', 'step %d: after the host called %s%r the names mapping differs from the model' % (step, op['fn'], tuple(op['args'])), {'kind': 'names_mismatch'})
             continue
         if op['op'] == 'scan':
             try:
